@@ -717,3 +717,120 @@ def r_public_defaults(ctx: Ctx, rule: str) -> None:
                 run.ok(rule, inst)
             else:
                 run.fail(rule, inst, f"field {c.name}.{fname} defaults to `{got if got is not None else '<required>'}`; the verified default is `{want}`", file=c.module.path, line=c.node.lineno, func=c.name)
+
+
+def r_no_shadowing_captures(ctx: Ctx, rule: str) -> None:
+    """`case K(operation=Chain)` binds a local called Chain and matches everything; `case K(operation=Chain())` tests the class."""
+    run, m = ctx.run, ctx.m
+    run.rule(
+        rule,
+        "no `match` pattern captures into a name that the module already uses for a class, function or import: a bare "
+        "`Name` sub-pattern is a capture that matches any value (and re-binds that name for the rest of the function), so "
+        "an arm written as `operation=Chain` instead of `operation=Chain()` takes every operation for a chain",
+        expected_min=20,
+    )
+    n = 0
+    for mod in m.modules.values():
+        if mod.rel.startswith("tests"):
+            continue
+        taken = set(mod.imports) | set(mod.classes) | set(mod.functions)
+        for fn in ast.walk(ast.parse(mod.source, filename=mod.path)):  # the source as written
+            if not isinstance(fn, ast.Match):
+                continue
+            for case in fn.cases:
+                for p in ast.walk(case.pattern):
+                    name = p.name if isinstance(p, (ast.MatchAs, ast.MatchStar)) else p.rest if isinstance(p, ast.MatchMapping) else None
+                    if name is None:
+                        continue
+                    n += 1
+                    inst = f"{mod.rel}:{name}@{src(case.pattern)[:40]}"
+                    if name in taken:
+                        run.fail(
+                            rule,
+                            inst,
+                            f"the pattern `{src(case.pattern)[:80]}` captures into `{name}`, which is a {'class' if name in mod.classes else 'function' if name in mod.functions else 'imported name'} of this module: "
+                            f"the sub-pattern matches any value instead of testing for `{name}` (write `{name}()`), and the name is re-bound for the rest of the function",
+                            file=mod.path,
+                            line=p.lineno,
+                            func=name,
+                        )
+                    else:
+                        run.ok(rule, inst)
+    if n == 0:
+        raise AnalysisError("no capture pattern found in the package; the match-based dispatchers are gone")
+
+
+def r_no_double_formatting(ctx: Ctx, rule: str) -> None:
+    """`f"... {relation} ..." % x` interprets the relation's own text as a format string."""
+    run, m = ctx.run, ctx.m
+    run.rule(
+        rule,
+        "no text is formatted twice: a template handed to `%` / .format() / .format_map() is a constant, never an f-string "
+        "(directly or through a local) that already contains the text of a caller-supplied object - a `%` or `{` in a "
+        "relation, column or prefix name would otherwise be taken for a directive, and the message or name being built "
+        "turns into a ValueError/TypeError/KeyError or into different text",
+        expected_min=1,
+    )
+    numeric = {"int", "float", "bool"}
+    n = 0
+    for f in m.all_functions():
+        if f.module.rel.startswith("tests"):
+            continue
+        binds: dict[str, list[ast.expr]] = {}
+        for s in ast.walk(f.node):
+            if isinstance(s, ast.Assign) and len(s.targets) == 1 and isinstance(s.targets[0], ast.Name):
+                binds.setdefault(s.targets[0].id, []).append(s.value)
+            elif isinstance(s, ast.AnnAssign) and isinstance(s.target, ast.Name) and s.value is not None:
+                binds.setdefault(s.target.id, []).append(s.value)
+        ann = {a.arg: src(a.annotation) for a in f.node.args.args + f.node.args.kwonlyargs if a.annotation is not None}
+
+        def templates(e: ast.expr) -> list[ast.JoinedStr]:
+            if isinstance(e, ast.JoinedStr):
+                return [e]
+            if isinstance(e, ast.Name):
+                return [t for b in binds.get(e.id, []) for t in templates(b)] if len(binds.get(e.id, [])) <= 3 else []
+            if isinstance(e, ast.BinOp) and isinstance(e.op, ast.Add):
+                return templates(e.left) + templates(e.right)
+            if isinstance(e, ast.IfExp):
+                return templates(e.body) + templates(e.orelse)
+            return []
+
+        for node in ast.walk(f.node):
+            tmpl = None
+            if isinstance(node, ast.BinOp) and isinstance(node.op, ast.Mod):
+                tmpl = node.left
+            elif isinstance(node, ast.Call) and isinstance(node.func, ast.Attribute) and node.func.attr in ("format", "format_map"):
+                tmpl = node.func.value
+            if tmpl is None:
+                continue
+            if isinstance(tmpl, ast.Constant):
+                if isinstance(tmpl.value, str):
+                    n += 1
+                    run.ok(rule, f"{f.qualname}:{node.lineno - f.node.lineno}")
+                continue
+            ts = templates(tmpl)
+            if not ts:
+                continue
+            n += 1
+            texty = [
+                v
+                for t in ts
+                for v in t.values
+                if isinstance(v, ast.FormattedValue)
+                and not (isinstance(v.value, ast.Name) and ann.get(v.value.id, "").split("|")[0].strip() in numeric)
+                and not (v.format_spec is not None and src(v.format_spec).strip("'\"f").rstrip("}").endswith(("d", "x", "X", "f", "e", "g", "o", "b")))
+                and not isinstance(v.value, ast.Constant)
+            ]
+            inst = f"{f.qualname}:{node.lineno - f.node.lineno}"
+            if texty:
+                run.fail(
+                    rule,
+                    inst,
+                    f"`{src(node)[:80]}` formats a template that already contains the text of `{src(texty[0].value)[:40]}`: a `%` or `{{` in that text is taken for a format "
+                    "directive, so building the string raises (or silently changes the text) exactly for the objects whose names contain one",
+                    fi=f,
+                    node=node,
+                )
+            else:
+                run.ok(rule, inst)
+    run.ok(rule, "scanned:all-functions", {"sites": n})
